@@ -134,4 +134,52 @@ example : next P = 0 ∧ next 0 = 0 := by decide
 /-! non-vacuity -/
 example : stream 3 (setSeed 5 132) = [13860, 1455300, 12805387] := by decide
 
+/-! ### addresses of the simulated columns -/
+
+/-- the address stays inside the block of `nbsimu * nvar * ncase` columns -/
+theorem simRank_lt (isimu ivar icase nbsimu nvar ncase : Nat) (h1 : isimu < nbsimu) (h2 : ivar < nvar)
+    (h3 : icase < ncase) : simRank isimu ivar icase nbsimu nvar < nbsimu * (nvar * ncase) := by
+  unfold simRank
+  have a : ivar + nvar * icase < nvar * ncase := by
+    calc ivar + nvar * icase < nvar + nvar * icase := by omega
+      _ = nvar * (icase + 1) := by ring
+      _ ≤ nvar * ncase := Nat.mul_le_mul_left _ (by omega)
+  calc isimu + nbsimu * (ivar + nvar * icase) < nbsimu + nbsimu * (ivar + nvar * icase) := by omega
+    _ = nbsimu * (ivar + nvar * icase + 1) := by ring
+    _ ≤ nbsimu * (nvar * ncase) := Nat.mul_le_mul_left _ (by omega)
+
+/-- two different (simulation, variable, system) triples never share a column: the values of one
+simulation are never read as those of another -/
+theorem simRank_injective (nbsimu nvar : Nat) (i1 v1 c1 i2 v2 c2 : Nat)
+    (hi1 : i1 < nbsimu) (hi2 : i2 < nbsimu) (hv1 : v1 < nvar) (hv2 : v2 < nvar)
+    (h : simRank i1 v1 c1 nbsimu nvar = simRank i2 v2 c2 nbsimu nvar) : i1 = i2 ∧ v1 = v2 ∧ c1 = c2 := by
+  unfold simRank at h
+  have hi : i1 = i2 := by
+    have e1 : (i1 + nbsimu * (v1 + nvar * c1)) % nbsimu = i1 := by
+      rw [Nat.add_mul_mod_self_left]; exact Nat.mod_eq_of_lt hi1
+    have e2 : (i2 + nbsimu * (v2 + nvar * c2)) % nbsimu = i2 := by
+      rw [Nat.add_mul_mod_self_left]; exact Nat.mod_eq_of_lt hi2
+    rw [h] at e1; omega
+  subst hi
+  have hb : 0 < nbsimu := by omega
+  have h2 : v1 + nvar * c1 = v2 + nvar * c2 := by
+    have := Nat.add_left_cancel h
+    exact Nat.eq_of_mul_eq_mul_left hb this
+  have hv : v1 = v2 := by
+    have e1 : (v1 + nvar * c1) % nvar = v1 := by
+      rw [Nat.add_mul_mod_self_left]; exact Nat.mod_eq_of_lt hv1
+    have e2 : (v2 + nvar * c2) % nvar = v2 := by
+      rw [Nat.add_mul_mod_self_left]; exact Nat.mod_eq_of_lt hv2
+    rw [h2] at e1; omega
+  subst hv
+  have hn : 0 < nvar := by omega
+  have h3 : nvar * c1 = nvar * c2 := Nat.add_left_cancel h2
+  exact ⟨rfl, rfl, Nat.eq_of_mul_eq_mul_left hn h3⟩
+
+/-- finding F91 (repaired): the Gibbs sampler stored its results at another address than the one
+every reader uses as soon as there are two Gaussian fields and two simulations -/
+theorem gibbs_old_address_differs :
+    gibbsRankOld 1 0 0 1 2 ≠ simRank 1 0 0 2 2 ∧ gibbsRankOld 0 1 0 1 2 = simRank 1 0 0 2 2 := by
+  decide
+
 end GstProofs.C13
